@@ -71,6 +71,7 @@ def normalise(sc):
     sc.setdefault("dec", 0)
     sc.setdefault("dev", [])
     sc.setdefault("couple", [])
+    sc.setdefault("fault", 0)
     return sc
 
 
@@ -93,11 +94,13 @@ class Ctx:
 
     def draw(self, key, allowed):
         key = "/".join(str(v) for v in key)
-        if self.script is not None:
-            q = self.script.get(key)
+        if self.script is not None and key in self.script:
+            q = self.script[key]
             if not q:
                 raise Exhausted(key)
             v = q.pop(0)
+            if isinstance(v, str) and v.startswith("!"):      # fault injection values (JSON-safe encoding)
+                v = {"!nan": float("nan"), "!none": None, "!str": "x", "!neg": -1, "!frac": 1.5}[v]
         else:
             v = self.rng.choice(list(allowed))
         self.draws.setdefault(key, []).append(v)
@@ -312,7 +315,7 @@ def to_cfg(sc):
         return [F(v) for v in lst]
     cfg = {"N": sc["N"], "K": sc["K"], "P": len(set(sc["prio"])), "prio": list(sc["prio"]),
            "syscap": sc["syscap"], "T": F(sc["T"]) if sc["T"] < INF else INF, "stop": sc["stop"], "maxc": sc["maxc"],
-           "tracker": sc["tracker"], "observed": list(sc["observed"]), "groups": [list(g) for g in sc["groups"]], "detector": sc["detector"], "exact": sc["exact"], "dec": sc["dec"], "dev": list(sc["dev"]), "couple": list(sc["couple"]),
+           "tracker": sc["tracker"], "observed": list(sc["observed"]), "groups": [list(g) for g in sc["groups"]], "detector": sc["detector"], "exact": sc["exact"], "dec": sc["dec"], "dev": list(sc["dev"]), "couple": list(sc["couple"]), "fault": sc["fault"],
            "arrS": [[fl(c) for c in n] for n in sc["arrS"]],
            "batchS": [[list(c) for c in n] for n in sc["batchS"]],
            "svcS": [[fl(c) if c else [F(1)] for c in n] for n in sc["svcS"]],
